@@ -552,6 +552,14 @@ func (e *Engine) replay(o *Obligation, dir string) (string, string) {
 		doc.Property = strings.Join(o.Props, ",")
 	}
 	tail := " no-failing-input-found"
+	if o.Kind == "bounded" && o.Result.Status == "sat" {
+		// the failing table was produced by running the real Repair: it is the failing input
+		doc.Note = "failing input found by running the real function inside the bounded enumeration; rerun with the command below"
+		doc.Observed = []string{trimOut(o.Result.Raw, 1500)}
+		doc.TestCommand = "cd /repo && echo '{\"Replace\":{\"/repo/zz_verif_bounded_test.go\":\"/verif/bounded/repair_bounded_test.go\"}}' > /tmp/ov.json && GOFLAGS=-mod=mod go test -overlay /tmp/ov.json -vet=off -count=1 -v -run TestVerifBoundedRepair ."
+		doc.Confirmed = true
+		return e.writeReplay(dir, doc), ""
+	}
 	if o.ctx == nil || o.Result.Status != "sat" {
 		if o.Result.Status != "sat" {
 			doc.Note = "the solver gave no model (" + o.Result.Status + "); the obligation discharged on the unchanged tree and no longer does"
